@@ -8,7 +8,17 @@
 //   - a fault-injecting Persistence whose Save / Delete stop at gates, so that the driver
 //     decides their outcome (success, error, error-after-effect, crash = never returns) and
 //     can interleave several GetNow callers deterministically;
-//   - a storage that survives "restarts" (a restart = a new pool + scheduler over it).
+//   - a storage that survives "restarts" (a restart = a new pool + scheduler over it) and
+//     has one FAULT WINDOW per entry point (Save / Delete / ReadAll): FaultSave / FaultDel /
+//     FaultRead make the next n calls (n = 1..5, or forever) answer a given fault whatever the
+//     operation planned; every call uses one call of its window, also a call the driver did not
+//     plan (an implementation that retries): such calls are answered by the window, or succeed;
+//   - at every hand-out the fake records whether the value's storage entry still existed at
+//     the moment GetNow returned (o_kept).
+//
+// Histories continue after a failed Delete with a restart over the same storage, a refill and
+// the consumption of everything (GetNow until ErrEmptyPool), so that a parameter that was
+// handed out while still stored is seen a second time.
 // The driver never sleeps and never concludes anything from a timeout: it waits on explicit
 // conditions (gate reached, call returned, worker goroutine gone / parked in the pool's select);
 // a condition that is not met within the deadline makes the history Inconclusive (counted,
@@ -36,11 +46,20 @@ type param struct{ V uint64 }
 // ---------------------------------------------------------------- ops (mirror Model/C39.v)
 
 type op struct {
-	K      string `json:"k"`           // Gen GenNil GenCrash GetBegin GetEnd GetCrash Stop Resume Restart
-	V      uint64 `json:"v,omitempty"` // Gen, GenCrash
-	T      uint64 `json:"t,omitempty"` // GetBegin, GetEnd, GetCrash
-	F      string `json:"f,omitempty"` // SaveOk SaveErr SaveErrStored | DelOk DelErr DelErrDeleted | ReadOk ReadErr
-	Stored bool   `json:"stored,omitempty"`
+	K       string `json:"k"`           // Gen GenNil GenCrash GetBegin GetEnd GetCrash Stop Resume Restart FaultSave FaultDel FaultRead
+	V       uint64 `json:"v,omitempty"` // Gen, GenCrash
+	T       uint64 `json:"t,omitempty"` // GetBegin, GetEnd, GetCrash
+	F       string `json:"f,omitempty"` // SaveOk SaveErr SaveErrStored | DelOk DelErr DelErrDeleted | ReadOk ReadErr
+	Stored  bool   `json:"stored,omitempty"`
+	N       int    `json:"n,omitempty"`       // Fault*: the number of calls the fault lasts
+	Forever bool   `json:"forever,omitempty"` // Fault*: it lasts for ever
+}
+
+func (o op) dur() string {
+	if o.Forever {
+		return "Forever"
+	}
+	return fmt.Sprintf("(Calls %s)", lib.N(uint64(o.N)))
 }
 
 func (o op) coq() string {
@@ -57,6 +76,8 @@ func (o op) coq() string {
 		return fmt.Sprintf("(GetCrash %s)", lib.N(o.T))
 	case "Restart":
 		return fmt.Sprintf("(Restart %s)", o.F)
+	case "FaultSave", "FaultDel", "FaultRead":
+		return fmt.Sprintf("(%s %s %s)", o.K, o.F, o.dur())
 	}
 	return o.K // GenNil Stop Resume
 }
@@ -66,6 +87,7 @@ type obs struct {
 	X     uint64   `json:"x,omitempty"`
 	Count int      `json:"count"`
 	Store []uint64 `json:"store"`
+	Kept  bool     `json:"kept,omitempty"` // a value was returned whose storage entry still existed
 	Note  string   `json:"note,omitempty"`
 }
 
@@ -74,7 +96,8 @@ func (b obs) coq() string {
 	if r == "RInDel" || r == "RVal" {
 		r = fmt.Sprintf("(%s %s)", r, lib.N(b.X))
 	}
-	return fmt.Sprintf("{| o_res := %s; o_count := %s; o_store := %s |}", r, lib.N(uint64(b.Count)), lib.ListN(b.Store))
+	return fmt.Sprintf("{| o_res := %s; o_count := %s; o_store := %s; o_kept := %s |}", r, lib.N(uint64(b.Count)),
+		lib.ListN(b.Store), lib.Bool(b.Kept))
 }
 
 type input struct {
@@ -101,10 +124,53 @@ func (nopLogger) Panicf(string, ...interface{}) {}
 func (nopLogger) Warn(...interface{})           {}
 func (nopLogger) Warnf(string, ...interface{})  {}
 
+// window: the next n calls (or all calls) of one entry point of the storage answer f
+type window struct {
+	f       string
+	n       int
+	forever bool
+}
+
 // storage outlives the processes
 type storage struct {
-	mu    sync.Mutex
-	items []uint64 // oldest first
+	mu                 sync.Mutex
+	items              []uint64 // oldest first
+	wSave, wDel, wRead window
+}
+
+// answer gives the outcome of ONE call that the caller of the fake planned to be `want`: the
+// window's fault while the window is open (using it up by one call), `want` otherwise.
+func (s *storage) answer(w *window, want string) string {
+	s.mu.Lock()
+	defer s.mu.Unlock()
+	if w.forever {
+		return w.f
+	}
+	if w.n > 0 {
+		w.n--
+		return w.f
+	}
+	return want
+}
+func (s *storage) setWindow(w *window, o op) {
+	s.mu.Lock()
+	*w = window{f: o.F, n: o.N, forever: o.Forever}
+	s.mu.Unlock()
+}
+func (s *storage) open(w *window) bool {
+	s.mu.Lock()
+	defer s.mu.Unlock()
+	return w.forever || w.n > 0
+}
+func (s *storage) has(v uint64) bool {
+	s.mu.Lock()
+	defer s.mu.Unlock()
+	for _, x := range s.items {
+		if x == v {
+			return true
+		}
+	}
+	return false
 }
 
 func (s *storage) add(v uint64) {
@@ -144,6 +210,7 @@ type saveCmd struct {
 type proc struct {
 	st        *storage
 	readFault bool
+	readCalls int
 	sched     *generator.Scheduler
 	latch     *generator.ProtocolLatch
 	pool      *generator.ParameterPool[param]
@@ -152,6 +219,7 @@ type proc struct {
 	gen      chan genOutcome // what generateFn returns
 	saveCmds chan saveCmd
 	saveDone chan struct{}
+	saveSeen chan struct{} // Save was called although the driver planned no call (a retry)
 	dead     chan struct{} // closed when the process is gone: releases every hung call without effect
 
 	mu       sync.Mutex
@@ -182,11 +250,25 @@ func (p *proc) generate(ctx context.Context) *param {
 func (p *proc) Save(x *param) (*generator.Persisted[param], error) {
 	var c saveCmd
 	select {
-	case c = <-p.saveCmds:
-	case <-p.dead:
-		return nil, errDead
+	case c = <-p.saveCmds: // the outcome the driver planned for this operation's call
+	default:
+		// a call the driver did not plan: announce it and wait for its outcome
+		select {
+		case p.saveSeen <- struct{}{}:
+		case <-p.dead:
+			return nil, errDead
+		}
+		select {
+		case c = <-p.saveCmds:
+		case <-p.dead:
+			return nil, errDead
+		}
 	}
-	switch c.f {
+	f := c.f
+	if f != "Hang" {
+		f = p.st.answer(&p.st.wSave, f)
+	}
+	switch f {
 	case "SaveOk":
 		p.st.add(x.V)
 		p.saveDone <- struct{}{}
@@ -221,6 +303,9 @@ func (p *proc) Delete(x *generator.Persisted[param]) error {
 	}
 	select {
 	case c := <-gate:
+		if c != "Hang" {
+			c = p.st.answer(&p.st.wDel, c)
+		}
 		switch c {
 		case "DelOk":
 			p.st.del(v)
@@ -241,7 +326,14 @@ func (p *proc) Delete(x *generator.Persisted[param]) error {
 }
 
 func (p *proc) ReadAll() ([]*generator.Persisted[param], error) {
-	if p.readFault {
+	// the first ReadAll of a process is the one the operation planned; any further one succeeds
+	// unless the window says otherwise
+	want := "ReadOk"
+	if p.readFault && p.readCalls == 0 {
+		want = "ReadErr"
+	}
+	p.readCalls++
+	if p.st.answer(&p.st.wRead, want) != "ReadOk" {
 		return nil, errInjected
 	}
 	var all []*generator.Persisted[param]
@@ -333,9 +425,10 @@ func recvOrInconclusive[T any](what string, ch <-chan T) T {
 // ---------------------------------------------------------------- executor
 
 type getResult struct {
-	res string
-	x   uint64
-	why string
+	res  string
+	x    uint64
+	why  string
+	kept bool // the returned value's storage entry existed when GetNow returned
 }
 
 type exec struct {
@@ -347,12 +440,13 @@ type exec struct {
 	pending bool // the worker is blocked sending to a full pool
 	results map[uint64]chan getResult
 	inDel   map[uint64]uint64 // caller -> value it is deleting
+	last    obs               // the observation of the last operation performed
 }
 
 func (e *exec) start(readFault bool) {
 	p := &proc{st: e.st, readFault: readFault,
 		ready: make(chan struct{}), gen: make(chan genOutcome), saveCmds: make(chan saveCmd, 1),
-		saveDone: make(chan struct{}, 1), dead: make(chan struct{}),
+		saveDone: make(chan struct{}, 1), saveSeen: make(chan struct{}), dead: make(chan struct{}),
 		delGates: map[uint64]chan string{}, delSeen: make(chan uint64), delHung: make(chan struct{}, 1)}
 	p.sched = &generator.Scheduler{}
 	p.latch = generator.NewProtocolLatch()
@@ -389,22 +483,71 @@ func (e *exec) observe(res string, x uint64, note string) obs {
 	return obs{Res: res, X: x, Count: e.p.pool.ParametersCount(), Store: e.st.snapshot(), Note: note}
 }
 
+// maxExtraCalls bounds the persistence calls of one operation that the driver did not plan
+// (retries of the implementation); beyond it the history is Inconclusive.
+const maxExtraCalls = 40
+
+// awaitWorker waits until the worker iteration that has just called Save is over: either the
+// worker is back in generateFn (ready), or it is parked in the pool's select because the pool
+// is full (pending).  Save calls the driver did not plan (an implementation that retries) are
+// answered by the fault window, or succeed.
+func (e *exec) awaitWorker() (extra int) {
+	p := e.p
+	t0 := time.Now()
+	for i := 0; ; i++ {
+		select {
+		case <-p.ready:
+			e.pending = false
+			return
+		case <-p.saveSeen:
+			extra++
+			if extra > maxExtraCalls {
+				panic(inconclusive{"Save is retried without end"})
+			}
+			p.saveCmds <- saveCmd{f: "SaveOk"}
+			recvOrInconclusive("Save reached (retry)", p.saveDone)
+			continue
+		default:
+		}
+		if p.pool.ParametersCount() >= e.k {
+			// nobody consumes: a successful Save is followed by a send that blocks
+			if _, parked := workerGoroutines(); parked == 1 {
+				e.pending = true
+				return
+			}
+		}
+		if time.Since(t0) > deadline {
+			panic(inconclusive{"worker neither ready nor parked after Save"})
+		}
+		if i < 3 {
+			runtime.Gosched()
+		} else {
+			time.Sleep(20 * time.Microsecond) // polling back-off, not a condition
+		}
+	}
+}
+
 func (e *exec) do(o op) (b obs) {
 	p := e.p
 	switch o.K {
+	case "FaultSave":
+		e.st.setWindow(&e.st.wSave, o)
+		return e.observe("RNone", 0, "")
+	case "FaultDel":
+		e.st.setWindow(&e.st.wDel, o)
+		return e.observe("RNone", 0, "")
+	case "FaultRead":
+		e.st.setWindow(&e.st.wRead, o)
+		return e.observe("RNone", 0, "")
 	case "Gen":
-		before := p.pool.ParametersCount()
 		p.saveCmds <- saveCmd{f: o.F}
 		sendOrInconclusive("worker takes outcome", p.gen, genOutcome{v: o.V})
 		recvOrInconclusive("Save reached", p.saveDone)
-		if o.F == "SaveOk" && before >= e.k {
-			// nobody consumes: the send blocks; wait until the worker is parked in the select
-			waitCond("worker parked in pool select", func() bool { _, k := workerGoroutines(); return k == 1 })
-			e.pending = true
-		} else {
-			recvOrInconclusive("worker ready after Gen", p.ready)
+		note := ""
+		if extra := e.awaitWorker(); extra > 0 {
+			note = fmt.Sprintf("Save called %d times", 1+extra)
 		}
-		return e.observe("RNone", 0, "")
+		return e.observe("RNone", 0, note)
 	case "GenNil":
 		sendOrInconclusive("worker takes outcome", p.gen, genOutcome{isNil: true})
 		recvOrInconclusive("worker ready after GenNil", p.ready)
@@ -435,7 +578,7 @@ func (e *exec) do(o op) (b obs) {
 			case v.V == 0:
 				ch <- getResult{res: "RNil", why: "zero value"}
 			default:
-				ch <- getResult{res: "RVal", x: v.V}
+				ch <- getResult{res: "RVal", x: v.V, kept: p.st.has(v.V)}
 			}
 		}()
 		t := time.NewTimer(deadline)
@@ -451,7 +594,9 @@ func (e *exec) do(o op) (b obs) {
 			return e.observe("RInDel", x, "")
 		case r := <-ch:
 			delete(e.results, o.T)
-			return e.observe(r.res, r.x, r.why)
+			b = e.observe(r.res, r.x, r.why)
+			b.Kept = r.kept
+			return b
 		case <-t.C:
 			panic(inconclusive{"GetNow neither returned nor reached Delete"})
 		}
@@ -468,9 +613,34 @@ func (e *exec) do(o op) (b obs) {
 			return e.observe("RNone", 0, "")
 		}
 		gate <- o.F
-		r := recvOrInconclusive("GetNow returned", e.results[o.T])
-		delete(e.results, o.T)
-		return e.observe(r.res, r.x, r.why)
+		// GetNow returns; Delete calls the driver did not plan (an implementation that retries)
+		// are answered by the fault window, or succeed.  Every other caller in flight is parked
+		// at its own gate, so a Delete seen now belongs to this call.
+		t := time.NewTimer(deadline)
+		defer t.Stop()
+		for calls := 1; ; {
+			select {
+			case r := <-e.results[o.T]:
+				delete(e.results, o.T)
+				if calls > 1 {
+					r.why = strings.TrimSpace(fmt.Sprintf("%s (Delete called %d times)", r.why, calls))
+				}
+				b = e.observe(r.res, r.x, r.why)
+				b.Kept = r.kept
+				return b
+			case y := <-p.delSeen:
+				calls++
+				if calls > maxExtraCalls {
+					panic(inconclusive{"Delete is retried without end"})
+				}
+				p.mu.Lock()
+				g := p.delGates[y]
+				p.mu.Unlock()
+				g <- "DelOk"
+			case <-t.C:
+				panic(inconclusive{"GetNow did not return"})
+			}
+		}
 	case "Stop":
 		p.latch.Lock()
 		p.sched.VerifCheckProtocols()
@@ -495,8 +665,14 @@ func (e *exec) do(o op) (b obs) {
 // process only restarts, a stopped or blocked worker does not generate, only a caller that is
 // inside Delete can leave it.  Infeasible operations of a list are skipped (and not recorded).
 func (e *exec) feasible(o op) bool {
+	if strings.HasPrefix(o.K, "Fault") {
+		return true // the storage is outside the process
+	}
 	if e.hung {
 		return o.K == "Restart"
+	}
+	if (o.K == "Gen" || o.K == "GenCrash") && o.V == 0 {
+		return false // 0 is the zero parameter: never generated
 	}
 	switch o.K {
 	case "Gen", "GenNil", "GenCrash":
@@ -531,7 +707,7 @@ func runCase(id string, k int, store0 []uint64, boot string, next policy, em *li
 		fmt.Fprintf(os.Stderr, "c39: %d of %d histories inconclusive, giving up\n", nInconclusive, nCases)
 		aborted = true
 		em.Case(lib.Case{ID: "too-many-inconclusive-histories",
-			Coq: "{| c_k := 1%N; c_store0 := [1%N; 1%N]; c_boot := ReadOk; c_obs0 := {| o_res := RNone; o_count := 0%N; o_store := [] |}; c_steps := [] |}",
+			Coq: "{| c_k := 1%N; c_store0 := [1%N; 1%N]; c_boot := ReadOk; c_obs0 := {| o_res := RNone; o_count := 0%N; o_store := []; o_kept := false |}; c_steps := [] |}",
 			Key: "inconclusive", In: input{}, Out: "the driver could not drive the implementation"})
 		return
 	}
@@ -556,15 +732,21 @@ func runCase(id string, k int, store0 []uint64, boot string, next policy, em *li
 		}()
 		e.start(boot == "ReadErr")
 		outs = append(outs, e.observe("RNone", 0, ""))
+		skipped := 0
 		for i := 0; ; i++ {
 			o := next(e, i)
 			if o == nil {
 				break
 			}
 			if !e.feasible(*o) {
+				if skipped++; skipped > 1000 {
+					break // a policy that proposes nothing feasible any more
+				}
 				continue
 			}
+			skipped = 0
 			b := e.do(*o)
+			e.last = b
 			in.Ops = append(in.Ops, *o)
 			outs = append(outs, b)
 			steps = append(steps, "("+o.coq()+", "+b.coq()+")")
@@ -575,6 +757,21 @@ func runCase(id string, k int, store0 []uint64, boot string, next policy, em *li
 			}
 			if o.K == "Restart" || o.K == "GenCrash" || o.K == "GetCrash" {
 				feat["restart"] = true
+			}
+			if strings.HasPrefix(o.K, "Fault") && (o.Forever || o.N > 0) {
+				feat["fault"], feat["persist"] = true, true
+				if o.Forever {
+					em.Tally("persist-" + o.K + "-" + o.F + "-forever")
+				} else {
+					em.Tally(fmt.Sprintf("persist-%s-%s-%d", o.K, o.F, o.N))
+				}
+			}
+			if b.Res == "RErr" {
+				feat["delfail"] = true
+			} else if feat["delfail"] && o.K == "Restart" {
+				feat["delfail-restart"] = true
+			} else if feat["delfail-restart"] && b.Res == "REmpty" {
+				feat["delfail-restart-drained"] = true
 			}
 			if o.K == "Stop" {
 				feat["stop"] = true
@@ -600,6 +797,9 @@ func runCase(id string, k int, store0 []uint64, boot string, next policy, em *li
 	coq := fmt.Sprintf("{| c_k := %s; c_store0 := %s; c_boot := %s; c_obs0 := %s; c_steps := %s |}",
 		lib.N(uint64(k)), lib.ListN(store0), boot, outs[0].coq(), lib.List(steps))
 	em.Tally(fmt.Sprintf("k-%d", k))
+	if feat["delfail-restart-drained"] {
+		em.Tally("failed-delete-then-restart-then-drained")
+	}
 	em.Tally(fmt.Sprintf("len-%02d", len(in.Ops)/5*5))
 	key := fmt.Sprintf("%d|%v|%s|", k, store0, boot)
 	for _, o := range in.Ops {
@@ -611,7 +811,7 @@ func runCase(id string, k int, store0 []uint64, boot string, next policy, em *li
 		Key:        key,
 		Nontrivial: (feat["fault"] || feat["restart"] || feat["stop"]) && handed >= 1,
 		Sig: map[string]interface{}{"k": k, "fault": feat["fault"], "restart": feat["restart"],
-			"stop": feat["stop"]},
+			"stop": feat["stop"], "persist": feat["persist"]},
 		In:  in,
 		Out: outs,
 	})
@@ -626,13 +826,105 @@ func fixed(ops []op) policy {
 	}
 }
 
+// A history in stages: every stage proposes operations until it returns nil.
+type stage func(e *exec) *op
+
+func stages(ss ...stage) policy {
+	idx := 0
+	return func(e *exec, _ int) *op {
+		for idx < len(ss) {
+			if o := ss[idx](e); o != nil {
+				return o
+			}
+			idx++
+		}
+		return nil
+	}
+}
+func fixedStage(ops ...op) stage {
+	i := 0
+	return func(*exec) *op {
+		if i >= len(ops) {
+			return nil
+		}
+		i++
+		return &ops[i-1]
+	}
+}
+
+// counters of a history: the next value of the generator, the next caller
+type ids struct{ v, t uint64 }
+
+// clearStage closes every fault window that is open.
+func clearStage() stage {
+	return func(e *exec) *op {
+		switch {
+		case e.st.open(&e.st.wSave):
+			return &op{K: "FaultSave", F: "SaveOk"}
+		case e.st.open(&e.st.wDel):
+			return &op{K: "FaultDel", F: "DelOk"}
+		case e.st.open(&e.st.wRead):
+			return &op{K: "FaultRead", F: "ReadOk"}
+		}
+		return nil
+	}
+}
+
+// refillStage lets the worker generate until the pool is full (at most n values).
+func refillStage(c *ids, n int) stage {
+	return func(e *exec) *op {
+		if n <= 0 || e.hung || !e.running || e.pending || e.p.pool.ParametersCount() >= e.k {
+			return nil
+		}
+		n--
+		c.v++
+		return &op{K: "Gen", V: c.v, F: "SaveOk"}
+	}
+}
+
+// drainStage consumes everything: GetNow (with the Delete outcome f) until ErrEmptyPool, at
+// most n calls.
+func drainStage(c *ids, n int, f string) stage {
+	st, cur := 0, uint64(0)
+	return func(e *exec) *op {
+		if e.hung {
+			return nil
+		}
+		if st == 1 {
+			st = 0
+			if _, in := e.inDel[cur]; in {
+				return &op{K: "GetEnd", T: cur, F: f}
+			}
+			if e.last.Res == "REmpty" {
+				return nil
+			}
+		}
+		if n <= 0 {
+			return nil
+		}
+		n--
+		c.t++
+		cur, st = c.t, 1
+		return &op{K: "GetBegin", T: cur}
+	}
+}
+
+// tail: what every history about failed deletes continues with — the storage works again, the
+// process restarts over the same storage, refills, hands out everything, restarts once more and
+// hands out whatever is (wrongly) still there.
+func tail(c *ids, k int) []stage {
+	return []stage{clearStage(), fixedStage(op{K: "Restart", F: "ReadOk"}), refillStage(c, k+1),
+		drainStage(c, 2*k+6, "DelOk"), fixedStage(op{K: "Restart", F: "ReadOk"}), drainStage(c, 2*k+6, "DelOk")}
+}
+
 // ---------------------------------------------------------------- generators
 
 type genState struct {
 	r       *lib.Rng
-	nextV   uint64
-	nextT   uint64
+	c       *ids
+	i       int
 	n       int
+	pWin    int // chance in 100 that an operation sets a fault window
 	pSave   int // chance in 100 of a Save fault
 	pDel    int
 	pCrash  int
@@ -665,9 +957,35 @@ func (g *genState) readFault() string {
 	return "ReadOk"
 }
 
-func (g *genState) next(e *exec, i int) *op {
-	if i >= g.n {
+// a persistent fault: one of the three entry points, for 1..5 calls or for ever
+func (g *genState) window(e *exec) *op {
+	var o op
+	switch g.r.Intn(5) {
+	case 0:
+		o = op{K: "FaultSave", F: []string{"SaveErr", "SaveErrStored"}[g.r.Intn(2)]}
+	case 1:
+		o = op{K: "FaultRead", F: "ReadErr"}
+	default:
+		o = op{K: "FaultDel", F: []string{"DelErr", "DelErr", "DelErrDeleted"}[g.r.Intn(3)]}
+	}
+	if g.r.Chance(1, 6) {
+		o.Forever = true
+	} else {
+		o.N = g.r.Range(1, 5)
+	}
+	return &o
+}
+
+func (g *genState) next(e *exec) *op {
+	if g.i >= g.n {
 		return nil
+	}
+	g.i++
+	if g.r.Intn(100) < g.pWin {
+		if open := e.st.open(&e.st.wSave) || e.st.open(&e.st.wDel) || e.st.open(&e.st.wRead); open && g.r.Chance(1, 3) {
+			return clearStage()(e)
+		}
+		return g.window(e)
 	}
 	// callers still in flight according to the executor
 	var fl []uint64
@@ -688,21 +1006,21 @@ func (g *genState) next(e *exec, i int) *op {
 				continue
 			}
 			if g.r.Intn(100) < g.pCrash {
-				g.nextV++
-				return &op{K: "GenCrash", V: g.nextV, Stored: g.r.Bool()}
+				g.c.v++
+				return &op{K: "GenCrash", V: g.c.v, Stored: g.r.Bool()}
 			}
 			if g.r.Chance(1, 10) {
 				return &op{K: "GenNil"}
 			}
-			g.nextV++
-			return &op{K: "Gen", V: g.nextV, F: g.saveFault()}
+			g.c.v++
+			return &op{K: "Gen", V: g.c.v, F: g.saveFault()}
 		case c < 58: // a caller enters GetNow
 			if len(fl) >= 3 {
 				continue
 			}
-			g.nextT++
-			g.inOrder = append(g.inOrder, g.nextT)
-			return &op{K: "GetBegin", T: g.nextT}
+			g.c.t++
+			g.inOrder = append(g.inOrder, g.c.t)
+			return &op{K: "GetBegin", T: g.c.t}
 		case c < 86: // a caller's Delete answers
 			if len(fl) == 0 {
 				continue
@@ -789,6 +1107,47 @@ func main() {
 	runCase("corpus-capacity-zero", 0, nil, "ReadOk",
 		fixed(cat([]op{{K: "GetBegin", T: 1}}, gen(1, "SaveOk"), get(2, "DelOk"), get(3, "DelOk"), gen(2, "SaveOk"), one("Stop"), get(4, "DelOk"))), em)
 
+	// a Delete that keeps failing: the parameter stays in the storage and must not be handed out,
+	// however often the implementation tries; after the restart it is handed out once
+	runCase("corpus-delete-fails-three-times-then-restart", 10, []uint64{100}, "ReadOk",
+		stages(append([]stage{fixedStage(cat([]op{{K: "FaultDel", F: "DelErr", N: 3}}, get(1, "DelOk"))...)},
+			tail(&ids{t: 1}, 10)...)...), em)
+	runCase("corpus-delete-fails-forever-then-restart", 2, []uint64{101, 102}, "ReadOk",
+		stages(append([]stage{fixedStage(cat([]op{{K: "FaultDel", F: "DelErr", Forever: true}}, get(1, "DelOk"), get(2, "DelOk"),
+			get(3, "DelOk"))...)}, tail(&ids{t: 3}, 2)...)...), em)
+
+	// --- persistent faults, systematically: every entry point x fault x duration (1..5 calls,
+	// for ever) x capacity 1..3, under a fixed workload that calls the entry point at least six
+	// times, restarts in between, and ends with the tail (storage repaired, restart, refill,
+	// hand out everything, restart, hand out everything)
+	type wf struct{ k, f string }
+	for _, w := range []wf{{"FaultDel", "DelErr"}, {"FaultDel", "DelErrDeleted"}, {"FaultSave", "SaveErr"},
+		{"FaultSave", "SaveErrStored"}, {"FaultRead", "ReadErr"}} {
+		for d := 1; d <= 6; d++ {
+			for k := 1; k <= 3; k++ {
+				if o.Tier == "quick" && w.k != "FaultDel" && k != 1+(d+len(w.f))%3 {
+					continue // quick: all capacities for Delete, one per duration for the others
+				}
+				c := &ids{}
+				win := op{K: w.k, F: w.f, N: d}
+				if d == 6 {
+					win = op{K: w.k, F: w.f, Forever: true}
+				}
+				restart := fixedStage(op{K: "Restart", F: "ReadOk"})
+				ss := []stage{refillStage(c, k), fixedStage(win),
+					drainStage(c, 2, "DelOk"), refillStage(c, 2), restart,
+					drainStage(c, 2, "DelOk"), refillStage(c, 2), restart,
+					drainStage(c, 3, "DelOk"), refillStage(c, 2), restart}
+				ss = append(ss, tail(c, k)...)
+				var store0 []uint64
+				if k > 1 {
+					store0 = []uint64{101}
+				}
+				runCase(fmt.Sprintf("persist-%s-%s-%d-k%d", w.k, w.f, d, k), k, store0, "ReadOk", stages(ss...), em)
+			}
+		}
+	}
+
 	// --- exhaustive small scope: every history of length L over a 7-letter alphabet, k = 1, 2
 	alphabet := func(v *uint64, t *uint64, c int) []op {
 		switch c {
@@ -821,7 +1180,7 @@ func main() {
 	for i := 0; i < L; i++ {
 		total *= 7
 	}
-	nSmall := o.Count(220, 2*total)
+	nSmall := o.Count(200, 2*total)
 	perm := rng.Fork("small").Perm(2 * total)
 	for i := 0; i < nSmall && i < 2*total; i++ {
 		code := perm[i]
@@ -851,18 +1210,23 @@ func main() {
 				store0 = append(store0, uint64(101+j))
 			}
 		}
-		g := &genState{r: r, n: r.Range(6, 28), pSave: 25, pDel: 25, pCrash: 8, pRead: 15}
+		g := &genState{r: r, c: &ids{}, n: r.Range(6, 28), pSave: 25, pDel: 25, pCrash: 8, pRead: 15, pWin: 6}
 		if r.Chance(1, 4) { // a mostly fault-free stream
-			g.pSave, g.pDel, g.pCrash, g.pRead = 3, 3, 1, 2
+			g.pSave, g.pDel, g.pCrash, g.pRead, g.pWin = 3, 3, 1, 2, 2
 		}
 		boot := "ReadOk"
 		if len(store0) > 0 && r.Chance(1, 10) {
 			boot = "ReadErr"
 		}
-		runCase(fmt.Sprintf("rand-%d", i), k, store0, boot, g.next, em)
+		ss := []stage{g.next}
+		if r.Chance(1, 2) {
+			// go on after whatever failed: storage repaired, restart over the same storage,
+			// refill, hand out everything, restart, hand out everything
+			ss = append(ss, tail(g.c, k)...)
+		}
+		runCase(fmt.Sprintf("rand-%d", i), k, store0, boot, stages(ss...), em)
 	}
 	em.Close("a case is one history (capacity, initial storage, operations) run on a fresh pool; distinct by "+
 		"(capacity, initial storage, operation list); non-trivial when the history contains a storage fault, "+
 		"a crash/restart or a scheduler stop AND GetNow handed out at least one parameter", nil)
 }
-
